@@ -31,7 +31,8 @@ def main():
     for mid in ids:
         meta = json.load(open('%s/seeded/%s/meta.json' % (V, mid)))
         prop = meta['property']
-        env = dict(os.environ, VERIF_SELFTEST='0', VERIF_REPLAY_DIR=scratch + '/replays', VERIF_EVIDENCE_DIR=scratch + '/evidence')
+        rdir = scratch + '/replays-' + mid
+        env = dict(os.environ, VERIF_SELFTEST='0', VERIF_REPLAY_DIR=rdir, VERIF_EVIDENCE_DIR=scratch + '/evidence')
         if runs:
             env['VERIF_RUNS'] = runs
         t0 = time.time()
@@ -43,6 +44,12 @@ def main():
                         'exit': p.returncode, 'caught': p.returncode == 1, 'signatures': sigs[:8],
                         'control': bool(meta.get('control')), 'wall_s': round(time.time() - t0, 1),
                         'summary': summary[-1] if summary else p.stdout[-300:] + p.stderr[-300:]}
+        # keep the first minimised failing plan next to the seeded change (replays only against the patched tree)
+        first = [ln.split('replay=')[1].strip() for ln in p.stdout.splitlines() if ln.startswith('VIOLATION') and 'replay=' in ln]
+        if first and os.path.exists(first[0]):
+            import shutil
+            shutil.copy(first[0], '%s/seeded/%s/replay.json' % (V, mid))
+            results[mid]['replay'] = 'seeded/%s/replay.json' % mid
         print('%-40s %s exit=%d %s %s' % (mid, prop, p.returncode, 'CAUGHT' if p.returncode == 1 else ('clean' if p.returncode == 0 else 'HARNESS-ERROR'), sigs[:3]))
         sys.stdout.flush()
         json.dump(results, open(results_path, 'w'), indent=1, sort_keys=True)
